@@ -131,8 +131,12 @@ def work(job):
             files = {rel: (trees.mutate(d, rnd) if rnd.random() < 0.6 else d) for rel, d in files.items()}
         structured = (i % 2 == 1)
     with core.Box(tag="c05") as box:
+        # the same configuration written redundantly (an extension or a macro listed twice) means the same
+        red = rnd.random() < 0.25
         cfg = core.make_config(structured=True if structured else None, use_cache=False,
-                               macros=gen.DEFAULT_MACROS + ([("log", "debug")] if kind.startswith("corpus") else []))
+                               extensions=(rnd.choice([["rs", "rs"], ["rs", "tpl", "rs"], ["tpl", "rs", "rs", "rs"]]) if red else None),
+                               macros=gen.DEFAULT_MACROS + ([("log", "debug")] if kind.startswith("corpus") else []) + ([gen.DEFAULT_MACROS[0]] if red else []))
+        res["counters"]["redundant_configuration"] = int(red)
         amb = ambient.choose(rnd, files, p=0.3, kinds=["ro_sources", "ro_sources", "mtimes", "siblings", "mix"])
         out = lab.run_tree(built, box, files, cfg, trace=False, timeout=300, ambient=amb)
     res["counters"]["ambient_" + amb["kind"]] = 1
